@@ -8,7 +8,7 @@
   Python fragment (`Expr`, one free variable = the lambda parameter):
     literals, comparisons (chains are desugared by the translator into `and`: all operands are
     pure), `and / or / not` with Python truthiness and operand-returning semantics, `%`, `&`,
-    `x in (…)` / `common.is_method(x, […])`, `x is None`, `np.isnan(x)`.
+    `x in (…)` / `common.is_method(x, […])`, `x is None`, `np.isnan(x)`, `np.isscalar(x)`.
   `eval` returns `none` where Python raises `TypeError`/`ValueError` (which `json_checker` turns
   into a validation error).  Comparisons and `%` are only translated when one operand is a numeric
   literal, so "the other operand is not a number" is exactly where Python raises.
@@ -102,7 +102,8 @@ inductive Expr where
   | isIn (a : Expr) (items : List JVal) -- `a in (…)`, `common.is_method(a, […])`
   | isNone (a : Expr)
   | npIsnan (a : Expr)
-  deriving Repr, Inhabited
+  | npIsscalar (a : Expr)
+  deriving Repr, Inhabited, DecidableEq
 
 /-- Python truthiness -/
 def JVal.truthy : JVal → Bool
@@ -197,6 +198,14 @@ def npIsnanTruth (x : JVal) : Option Bool :=
   | some (_, [b]) => some b
   | some _ => none
 
+/-- `np.isscalar(x)`: numbers, booleans and strings are scalars; `None`, lists, dicts are not -/
+def npIsscalarVal : JVal → Bool
+  | .bool _ => true
+  | .int _ => true
+  | .float _ => true
+  | .str _ => true
+  | _ => false
+
 namespace Expr
 
 def eval (x : JVal) : Expr → Option JVal
@@ -247,6 +256,10 @@ def eval (x : JVal) : Expr → Option JVal
       match npIsnanTruth va with
       | none => none
       | some b => some (.bool b)
+  | .npIsscalar a =>
+    match eval x a with
+    | none => none
+    | some va => some (.bool (npIsscalarVal va))
 
 /-- `FunctionChecker`: the value passes iff the function returns something truthy without raising -/
 def holds (e : Expr) (x : JVal) : Bool :=
@@ -298,6 +311,63 @@ abbrev Oracle := String → JVal → Bool
 
 namespace Schema
 
+/-! decidable equality (the type is nested, so it is written by hand and proved correct) -/
+mutual
+def beq : Schema → Schema → Bool
+  | .type a, .type b => a == b
+  | .func a, .func b => a == b
+  | .oracle a, .oracle b => a == b
+  | .all a, .all b => beqL a b
+  | .any a, .any b => beqL a b
+  | .listOf a, .listOf b => beqL a b
+  | .dict a, .dict b => beqE a b
+  | _, _ => false
+def beqL : List Schema → List Schema → Bool
+  | [], [] => true
+  | x :: xs, y :: ys => beq x y && beqL xs ys
+  | _, _ => false
+def beqE : List (String × Bool × Schema) → List (String × Bool × Schema) → Bool
+  | [], [] => true
+  | (k, o, x) :: xs, (k', o', y) :: ys => k == k' && o == o' && beq x y && beqE xs ys
+  | _, _ => false
+end
+
+mutual
+theorem beq_eq : ∀ (a b : Schema), beq a b = true ↔ a = b
+  | .type x, b => by cases b <;> simp [beq]
+  | .func x, b => by cases b <;> simp [beq]
+  | .oracle x, b => by cases b <;> simp [beq]
+  | .all x, b => by
+      cases b <;> simp [beq]
+      exact beqL_eq x _
+  | .any x, b => by
+      cases b <;> simp [beq]
+      exact beqL_eq x _
+  | .listOf x, b => by
+      cases b <;> simp [beq]
+      exact beqL_eq x _
+  | .dict x, b => by
+      cases b <;> simp [beq]
+      exact beqE_eq x _
+theorem beqL_eq : ∀ (a b : List Schema), beqL a b = true ↔ a = b
+  | [], b => by cases b <;> simp [beqL]
+  | x :: xs, b => by
+      cases b with
+      | nil => simp [beqL]
+      | cons y ys => simp [beqL, beq_eq x y, beqL_eq xs ys]
+theorem beqE_eq : ∀ (a b : List (String × Bool × Schema)), beqE a b = true ↔ a = b
+  | [], b => by cases b <;> simp [beqE]
+  | (k, o, x) :: xs, b => by
+      cases b with
+      | nil => simp [beqE]
+      | cons y ys =>
+        obtain ⟨k', o', y⟩ := y
+        simp [beqE, beq_eq x y, beqE_eq xs ys, and_assoc]
+end
+
+instance : DecidableEq Schema := fun a b =>
+  if h : beq a b = true then isTrue ((beq_eq a b).1 h) else isFalse (fun e => h ((beq_eq a b).2 e))
+
 /-- `Or` keeps the alternatives selected by `filtered_by_type(expected, type(current))` -/
 def keptByOr (v : JVal) : Schema → Bool
   | .type t => t.isExactly v
@@ -324,11 +394,11 @@ def accepts (o : Oracle) : Schema → JVal → Bool
       | [], _ => false
       | s :: rest, _ =>
         if (s :: rest).length = items.length then acceptsZip o (s :: rest) items
-        else acceptsEach o s items
+        else items.all (fun x => accepts o s x)   -- another length: every element against the first schema
     | _ => false
   | .dict entries, v =>
     match v with
-    | .obj kvs => acceptsEntries o entries kvs && kvs.all (fun kv => entriesHaveKey entries kv.1)
+    | .obj kvs => acceptsEntries o entries kvs && kvs.all (fun kv => entries.any (fun e => e.1 == kv.1))
     | _ => false
 /-- `And`: every component validates -/
 def acceptsAll (o : Oracle) : List Schema → JVal → Bool
@@ -342,10 +412,6 @@ def acceptsAny (o : Oracle) : List Schema → JVal → Bool
 def acceptsZip (o : Oracle) : List Schema → List JVal → Bool
   | s :: ss, x :: xs => accepts o s x && acceptsZip o ss xs
   | _, _ => true
-/-- list schema of another length: every element against the first schema -/
-def acceptsEach (o : Oracle) (s : Schema) : List JVal → Bool
-  | [] => true
-  | x :: xs => accepts o s x && acceptsEach o s xs
 /-- every expected key (optional ones only when present) is there and validates -/
 def acceptsEntries (o : Oracle) : List (String × Bool × Schema) → Dict → Bool
   | [], _ => true
@@ -353,10 +419,6 @@ def acceptsEntries (o : Oracle) : List (String × Bool × Schema) → Dict → B
     (match Dict.lookup kvs k with
      | some v => accepts o s v
      | none => opt) && acceptsEntries o rest kvs
-/-- the key is named by the schema -/
-def entriesHaveKey : List (String × Bool × Schema) → String → Bool
-  | [], _ => false
-  | (k, _, _) :: rest, key => k == key || entriesHaveKey rest key
 end
 
 end Schema
